@@ -38,6 +38,14 @@ def scenario_families(rnd, tier):
     fams.append((Bbig, [1, 3], "corrupt=20000", "BIG first multi-block part corrupted"))
     fams.append((Bbig, [1, 3], "corrupt=%d" % (40010 + 69000), "BIG second multi-block part corrupted"))
     fams.append((Bbig, [3], "corrupt=5", "BIG plain range corrupted"))
+    # compressed chunks (stored size well below the data size) whose payload arrives damaged: the zero-fill and the
+    # verification work on the STORED extent; the neighbours are present and valid
+    chz = [b""] + [(b"%d " % k) * n for k, n in enumerate((300, 150, 400, 200, 350), 1)]
+    Bz = ref.build_file(chz, comp_type=2, hash_type=1, chunk_hash_type=3, level=3)[0]
+    fams.append((Bz, [1, 3], "", "ZSTD compressible, two parts"))
+    fams.append((Bz, [1, 3], "corrupt=4", "ZSTD compressible, first part corrupted"))
+    fams.append((Bz, [2, 4], "corrupt=%d" % 40, "ZSTD compressible, second part corrupted"))
+    fams.append((Bz, [3], "corrupt=2", "ZSTD compressible, plain range corrupted"))
     # two multipart responses in one session (as zckdl does when the server limits the ranges per request), each
     # with its own boundary; the partitions are applied to the SECOND response
     B3 = mkB(8, [12, 25], 0)
